@@ -83,7 +83,8 @@ func runC14(c *sim.Ctx) *sim.Violation {
 		if t.Bool(1, 12) {
 			// remaining length 0: type 0 with any flags, PINGREQ, PINGRESP, DISCONNECT,
 			// AUTH - frames for which a decoder could hand out one shared object
-			return []byte{[]byte{byte(t.Int(16)), 0xC0, 0xD0, 0xE0, 0xE0, 0xF0}[t.Int(6)], 0x00}
+			// (any first byte one time in three: some types are accepted with an empty body)
+			return []byte{[]byte{byte(t.Int(16)), 0xC0, 0xD0, 0xE0, 0xE0, 0xF0, byte(t.Int(256)), byte(t.Int(256)), 0x30 | byte(t.Int(16))}[t.Int(9)], 0x00}
 		}
 		if t.Bool(1, 10) {
 			raw := t.Bytes(1 + t.Int(10))
@@ -290,10 +291,29 @@ func runC14(c *sim.Ctx) *sim.Violation {
 				f, _ := ref.Encode(a)
 				_, body, _, _ := ref.SplitFrame(f)
 				buf := append([]byte{}, body...)
-				sim.Guard(func() { e.p.UnmarshalBinary(buf) })
+				var uerr error
+				pi := sim.Guard(func() { uerr = e.p.UnmarshalBinary(buf) })
 				touched = i
 				what = fmt.Sprintf("decode a %s frame into existing #%d", typeName(typ), i)
 				c.Count("probe.decode-into-a-packet-already-in-use")
+				if pi == nil && uerr == nil {
+					// from now on THIS is the buffer the packet was decoded from: the
+					// no-aliasing half of C14 applies to it like to any other decode
+					e.buf = buf
+					if t.Bool(1, 2) {
+						before, _ := snapshot(e.p)
+						how := overwrite(t, buf, probe)
+						after, _ := snapshot(e.p)
+						c.Count("fault.input-buffer-overwritten-after-decode-into-used-receiver(" + how + ")")
+						if f, wv, gv := ref.FirstDiff(before, after); f != "" {
+							return sim.V("C14/"+typeName(typ)+"/aliases-input-buffer(receiver-already-in-use)/"+f,
+								"pool packet #%d (%s) was the receiver of UnmarshalBinary(%s); after that buffer was overwritten (%s) accessor %s changed from %q to %q\nhistory: %s",
+								i, e.how, hexs(body), how, f, wv, gv, hist)
+						}
+					}
+				} else {
+					e.buf = nil
+				}
 			}
 		case 0:
 			if v := addDecoded([]string{"ReadPacket", "UnmarshalBinary"}[t.Int(2)]); v != nil {
